@@ -14,52 +14,51 @@ Proof. exact (conj eq_refl eq_refl). Qed.
 
 (* prefix stability: a decision of Decode on the buffered bytes (frame of n bytes / error / error reply) is never
    changed by bytes that arrive later, and a frame never extends beyond the buffered bytes *)
-Theorem c07_prefix_stable_bolt : stable bolt_parse.
-Proof. exact bolt_parse_stable. Qed.
-Print Assumptions c07_prefix_stable_bolt.
-Theorem c07_prefix_stable_boltv2 : stable boltv2_parse.
-Proof. exact boltv2_parse_stable. Qed.
-Print Assumptions c07_prefix_stable_boltv2.
+Theorem c07_bolt :
+  (* c07_prefix_stable_bolt *)
+  (stable bolt_parse) /\
+  (* c07_segmentation_independent_bolt *)
+  (forall chunks,
+  no_reply (feed bolt_parse init (concat chunks)) ->
+  fold_left (feed bolt_parse) chunks init = feed bolt_parse init (concat chunks)) /\
+  (* c07_valid_stream_bolt *)
+  (forall fs t chunks,
+  Forall (frame_bytes_ok bolt_parse) fs -> tail_ok bolt_parse t ->
+  concat chunks = concat (map snd fs) ++ t ->
+  fold_left (feed bolt_parse) chunks init =
+  {| buf := t; out := map (fun fb => EFrame (fst fb)) fs; dead := false; stuck := false |}).
+Proof. exact (conj bolt_parse_stable (conj (seg_independent bolt_parse bolt_parse_stable) (seg_valid_stream bolt_parse bolt_parse_stable))). Qed.
+Print Assumptions c07_bolt.
+Theorem c07_boltv2 :
+  (* c07_prefix_stable_boltv2 *)
+  (stable boltv2_parse) /\
+  (* c07_segmentation_independent_boltv2 *)
+  (forall chunks,
+  no_reply (feed boltv2_parse init (concat chunks)) ->
+  fold_left (feed boltv2_parse) chunks init = feed boltv2_parse init (concat chunks)) /\
+  (* c07_valid_stream_boltv2 *)
+  (forall fs t chunks,
+  Forall (frame_bytes_ok boltv2_parse) fs -> tail_ok boltv2_parse t ->
+  concat chunks = concat (map snd fs) ++ t ->
+  fold_left (feed boltv2_parse) chunks init =
+  {| buf := t; out := map (fun fb => EFrame (fst fb)) fs; dead := false; stuck := false |}) /\
+  (* c07_bolt_family *)
+  (forall b x r, b = x :: r -> x = bolt_ProtocolCode \/ x = boltv2_ProtocolCode ->
+  boltv2_parse b = bolt_parse b).
+Proof. exact (conj boltv2_parse_stable (conj (seg_independent boltv2_parse boltv2_parse_stable) (conj (seg_valid_stream boltv2_parse boltv2_parse_stable) bolt_family_parse))). Qed.
+Print Assumptions c07_boltv2.
 
 (* For EVERY byte string and EVERY way of cutting it into reads the connection ends in exactly the state of
    delivering it in one read: same frames, same order, each once, same residue, closed in one iff in the other.
    (no_reply: the one-read run did not answer a request carrying an undecodable header block; after such a reply
    Dispatch returns and leaves the rest of the buffer for the next read - outside the property's valid streams.) *)
-Theorem c07_segmentation_independent_bolt : forall chunks,
-  no_reply (feed bolt_parse init (concat chunks)) ->
-  fold_left (feed bolt_parse) chunks init = feed bolt_parse init (concat chunks).
-Proof. exact (seg_independent bolt_parse bolt_parse_stable). Qed.
-Print Assumptions c07_segmentation_independent_bolt.
-Theorem c07_segmentation_independent_boltv2 : forall chunks,
-  no_reply (feed boltv2_parse init (concat chunks)) ->
-  fold_left (feed boltv2_parse) chunks init = feed boltv2_parse init (concat chunks).
-Proof. exact (seg_independent boltv2_parse boltv2_parse_stable). Qed.
-Print Assumptions c07_segmentation_independent_boltv2.
 
 (* The property as worded: for every concatenation of valid frames (fs: each byte string decodes to exactly its
    frame) followed by an incomplete frame t, and every segmentation: these frames come out, in order, each once;
    the incomplete frame consumes nothing; the connection stays open; the loop does not spin. *)
-Theorem c07_valid_stream_bolt : forall fs t chunks,
-  Forall (frame_bytes_ok bolt_parse) fs -> tail_ok bolt_parse t ->
-  concat chunks = concat (map snd fs) ++ t ->
-  fold_left (feed bolt_parse) chunks init =
-  {| buf := t; out := map (fun fb => EFrame (fst fb)) fs; dead := false; stuck := false |}.
-Proof. exact (seg_valid_stream bolt_parse bolt_parse_stable). Qed.
-Print Assumptions c07_valid_stream_bolt.
-Theorem c07_valid_stream_boltv2 : forall fs t chunks,
-  Forall (frame_bytes_ok boltv2_parse) fs -> tail_ok boltv2_parse t ->
-  concat chunks = concat (map snd fs) ++ t ->
-  fold_left (feed boltv2_parse) chunks init =
-  {| buf := t; out := map (fun fb => EFrame (fst fb)) fs; dead := false; stuck := false |}.
-Proof. exact (seg_valid_stream boltv2_parse boltv2_parse_stable). Qed.
-Print Assumptions c07_valid_stream_boltv2.
 
 (* the bolt <-> boltv2 cross dispatch on the first byte: whichever of the two engines the connection was
    created with, a buffer starting with one of the two protocol codes is decoded identically *)
-Theorem c07_bolt_family : forall b x r, b = x :: r -> x = bolt_ProtocolCode \/ x = boltv2_ProtocolCode ->
-  boltv2_parse b = bolt_parse b.
-Proof. exact bolt_family_parse. Qed.
-Print Assumptions c07_bolt_family.
 
 (* non-vacuity: a bolt request (class "ab", one header pair, 3 content bytes) and a boltv2 response satisfy
    frame_bytes_ok, 5 bytes of a next frame satisfy tail_ok, and a segmentation inside both frames is an instance *)
@@ -87,53 +86,52 @@ Proof. exact (conj eq_refl (conj eq_refl (conj eq_refl (conj eq_refl eq_refl))))
 
 (* dubbo: dubbo_parse_nz is the decoder model with a zero-length "frame" (only possible with >= 4 GiB buffered,
    where the uint32 frame length of decodeFrame wraps) mapped to an error; below 4 GiB it IS the decoder model *)
-Theorem c07_dubbo_framer_is_decoder : forall hess b, blen b < U32 -> dubbo_parse hess b = dubbo_parse_nz hess b.
-Proof. exact dubbo_parse_eq. Qed.
-Print Assumptions c07_dubbo_framer_is_decoder.
-Theorem c07_prefix_stable_dubbo : forall hess, stable (dubbo_parse_nz hess).
-Proof. exact dubbo_parse_nz_stable. Qed.
-Print Assumptions c07_prefix_stable_dubbo.
-Theorem c07_prefix_stable_thrift : forall tp, stable (thrift_parse tp).
-Proof. exact thrift_parse_stable. Qed.
-Print Assumptions c07_prefix_stable_thrift.
-Theorem c07_prefix_stable_tars : forall st rp, stable (tars_parse st rp).
-Proof. exact tars_parse_stable. Qed.
-Print Assumptions c07_prefix_stable_tars.
-
-Theorem c07_segmentation_independent_dubbo : forall hess chunks,
-  fold_left (feed (dubbo_parse_nz hess)) chunks init = feed (dubbo_parse_nz hess) init (concat chunks).
-Proof. exact (fun hess => seg_independent_nr _ (dubbo_parse_nz_stable hess) (dubbo_never_reply hess)). Qed.
-Print Assumptions c07_segmentation_independent_dubbo.
-Theorem c07_segmentation_independent_thrift : forall tp chunks,
-  fold_left (feed (thrift_parse tp)) chunks init = feed (thrift_parse tp) init (concat chunks).
-Proof. exact (fun tp => seg_independent_nr _ (thrift_parse_stable tp) (thrift_never_reply tp)). Qed.
-Print Assumptions c07_segmentation_independent_thrift.
-Theorem c07_segmentation_independent_tars : forall st rp chunks,
-  fold_left (feed (tars_parse st rp)) chunks init = feed (tars_parse st rp) init (concat chunks).
-Proof. exact (fun st rp => seg_independent_nr _ (tars_parse_stable st rp) (tars_never_reply st rp)). Qed.
-Print Assumptions c07_segmentation_independent_tars.
-
-Theorem c07_valid_stream_dubbo : forall hess fs t chunks,
+Theorem c07_dubbo :
+  (* c07_dubbo_framer_is_decoder *)
+  (forall hess b, blen b < U32 -> dubbo_parse hess b = dubbo_parse_nz hess b) /\
+  (* c07_prefix_stable_dubbo *)
+  (forall hess, stable (dubbo_parse_nz hess)) /\
+  (* c07_segmentation_independent_dubbo *)
+  (forall hess chunks,
+  fold_left (feed (dubbo_parse_nz hess)) chunks init = feed (dubbo_parse_nz hess) init (concat chunks)) /\
+  (* c07_valid_stream_dubbo *)
+  (forall hess fs t chunks,
   Forall (frame_bytes_ok (dubbo_parse_nz hess)) fs -> tail_ok (dubbo_parse_nz hess) t ->
   concat chunks = concat (map snd fs) ++ t ->
   fold_left (feed (dubbo_parse_nz hess)) chunks init =
-  {| buf := t; out := map (fun fb => EFrame (fst fb)) fs; dead := false; stuck := false |}.
-Proof. exact (fun hess => seg_valid_stream _ (dubbo_parse_nz_stable hess)). Qed.
-Print Assumptions c07_valid_stream_dubbo.
-Theorem c07_valid_stream_thrift : forall tp fs t chunks,
+  {| buf := t; out := map (fun fb => EFrame (fst fb)) fs; dead := false; stuck := false |}).
+Proof. exact (conj dubbo_parse_eq (conj dubbo_parse_nz_stable (conj (fun hess => seg_independent_nr _ (dubbo_parse_nz_stable hess) (dubbo_never_reply hess)) (fun hess => seg_valid_stream _ (dubbo_parse_nz_stable hess))))). Qed.
+Print Assumptions c07_dubbo.
+Theorem c07_thrift :
+  (* c07_prefix_stable_thrift *)
+  (forall tp, stable (thrift_parse tp)) /\
+  (* c07_segmentation_independent_thrift *)
+  (forall tp chunks,
+  fold_left (feed (thrift_parse tp)) chunks init = feed (thrift_parse tp) init (concat chunks)) /\
+  (* c07_valid_stream_thrift *)
+  (forall tp fs t chunks,
   Forall (frame_bytes_ok (thrift_parse tp)) fs -> tail_ok (thrift_parse tp) t ->
   concat chunks = concat (map snd fs) ++ t ->
   fold_left (feed (thrift_parse tp)) chunks init =
-  {| buf := t; out := map (fun fb => EFrame (fst fb)) fs; dead := false; stuck := false |}.
-Proof. exact (fun tp => seg_valid_stream _ (thrift_parse_stable tp)). Qed.
-Print Assumptions c07_valid_stream_thrift.
-Theorem c07_valid_stream_tars : forall st rp fs t chunks,
+  {| buf := t; out := map (fun fb => EFrame (fst fb)) fs; dead := false; stuck := false |}).
+Proof. exact (conj thrift_parse_stable (conj (fun tp => seg_independent_nr _ (thrift_parse_stable tp) (thrift_never_reply tp)) (fun tp => seg_valid_stream _ (thrift_parse_stable tp)))). Qed.
+Print Assumptions c07_thrift.
+Theorem c07_tars :
+  (* c07_prefix_stable_tars *)
+  (forall st rp, stable (tars_parse st rp)) /\
+  (* c07_segmentation_independent_tars *)
+  (forall st rp chunks,
+  fold_left (feed (tars_parse st rp)) chunks init = feed (tars_parse st rp) init (concat chunks)) /\
+  (* c07_valid_stream_tars *)
+  (forall st rp fs t chunks,
   Forall (frame_bytes_ok (tars_parse st rp)) fs -> tail_ok (tars_parse st rp) t ->
   concat chunks = concat (map snd fs) ++ t ->
   fold_left (feed (tars_parse st rp)) chunks init =
-  {| buf := t; out := map (fun fb => EFrame (fst fb)) fs; dead := false; stuck := false |}.
-Proof. exact (fun st rp => seg_valid_stream _ (tars_parse_stable st rp)). Qed.
-Print Assumptions c07_valid_stream_tars.
+  {| buf := t; out := map (fun fb => EFrame (fst fb)) fs; dead := false; stuck := false |}).
+Proof. exact (conj tars_parse_stable (conj (fun st rp => seg_independent_nr _ (tars_parse_stable st rp) (tars_never_reply st rp)) (fun st rp => seg_valid_stream _ (tars_parse_stable st rp)))). Qed.
+Print Assumptions c07_tars.
+
+
 
 (* non-vacuity: a dubbo response frame (17 bytes) is a valid frame for the framer, 3 bytes are an incomplete tail *)
 Example c07_dubbo_example :
@@ -142,22 +140,32 @@ Example c07_dubbo_example :
 Proof. eexists. split; [unfold frame_bytes_ok; cbn [fst snd]; vm_compute; reflexivity|right; vm_compute; reflexivity]. Qed.
 
 (* ===== protocol matchers and automatic protocol detection ===== *)
+(* protocol/api.go SelectStreamFactoryProtocol has the shape of Model/Matchers.v `select` (read from the source):
+   the first accepting factory wins, otherwise EAGAIN iff some matcher said EAGAIN, otherwise FAILED *)
+Theorem c07_select_shape_ok : select_shape_ok = true.
+Proof. exact eq_refl. Qed.
+
 (* every matcher (bolt, boltv2, dubbo, dubbo-thrift, tars, HTTP/1, HTTP/2) is monotone on prefixes:
    once it answers Success or Failed, later bytes never change the answer; only Again may change *)
-Theorem c07_match_monotone : forall p b e r, r <> MAgain -> matcher p b = r -> matcher p (b ++ e) = r.
-Proof. exact matcher_monotone. Qed.
-Print Assumptions c07_match_monotone.
+Theorem c07_matchers :
+  (* c07_match_monotone *)
+  (forall p b e r, r <> MAgain -> matcher p b = r -> matcher p (b ++ e) = r) /\
+  (* c07_select_order_independent *)
+  (forall b order order', Permutation order order' -> at_most_one b ->
+  select order b = select order' b) /\
+  (* c07_select_prefix_stable *)
+  (forall b e order p, at_most_one (b ++ e) ->
+  select order b = SelProto p -> select order (b ++ e) = SelProto p) /\
+  (* c07_match_exclusive_partial *)
+  (forall b p q, wf_bytes b -> p <> q ->
+  matcher p b = MSuccess -> matcher q b = MSuccess -> p = PThrift \/ q = PThrift) /\
+  (* c07_thrift_accepts_iff *)
+  (forall b, thrift_match b = MSuccess <-> 6 <= blen b /\ byte_at b 4 = 218 /\ byte_at b 5 = 188).
+Proof. exact (conj matcher_monotone (conj select_order_independent (conj select_prefix_stable (conj two_successes_involve_thrift thrift_success_iff)))). Qed.
+Print Assumptions c07_matchers.
 
 (* SelectStreamFactoryProtocol iterates a Go map: for bytes that at most one matcher accepts its result is the same
    for every iteration order, and a protocol chosen on a prefix is the protocol chosen on every longer read *)
-Theorem c07_select_order_independent : forall b order order', Permutation order order' -> at_most_one b ->
-  select order b = select order' b.
-Proof. exact select_order_independent. Qed.
-Print Assumptions c07_select_order_independent.
-Theorem c07_select_prefix_stable : forall b e order p, at_most_one (b ++ e) ->
-  select order b = SelProto p -> select order (b ++ e) = SelProto p.
-Proof. exact select_prefix_stable. Qed.
-Print Assumptions c07_select_prefix_stable.
 
 (* exclusivity: the full statement "no two matchers accept the same bytes" is false on the code as it is *)
 Definition c07_match_exclusive_statement : Prop := forall b, wf_bytes b -> at_most_one b.
@@ -174,10 +182,3 @@ Proof. exact exclusivity_refuted. Qed.
 (* the strongest true restriction: two different matchers accept the same bytes only if one of them is dubbo-thrift
    (its magic sits at offset 4..5, where bolt carries the version byte and the request id, dubbo the request id, ...);
    the six others are pairwise exclusive, and dubbo-thrift accepts exactly when bytes 4,5 are 0xda 0xbc *)
-Theorem c07_match_exclusive_partial : forall b p q, wf_bytes b -> p <> q ->
-  matcher p b = MSuccess -> matcher q b = MSuccess -> p = PThrift \/ q = PThrift.
-Proof. exact two_successes_involve_thrift. Qed.
-Print Assumptions c07_match_exclusive_partial.
-Theorem c07_thrift_accepts_iff : forall b, thrift_match b = MSuccess <-> 6 <= blen b /\ byte_at b 4 = 218 /\ byte_at b 5 = 188.
-Proof. exact thrift_success_iff. Qed.
-Print Assumptions c07_thrift_accepts_iff.
